@@ -16,6 +16,16 @@ CLAIMED = {
             'Pool abstraction: FIFO start, arbitrary completion order, pickle-by-value transport; the stub compiler '
             'models only "reads .mod of used modules at start, writes .mod/.o at end". Real compilers, f90wrap and the '
             'mtime skip logic are outside.'),
+    'C42': ('poolsim/lint', 'DESIGN.md sec. 5 (C42), 4.3-4.4',
+            'deterministic simulation: real lint_files code on a simulated process pool + manager (baton threads, '
+            'pickle transport, every proxy request a pre-emption point), seeded schedule search, serial run of the '
+            'same code as reference model',
+            'Seeded exploration of worker counts, task interleavings at every manager request / file effect, and '
+            'completion orders for generated file sets (incl. unparsable and non-UTF-8 files, fix mode); oracle: '
+            'per-handler multiset of per-file reports, checked count, violations YAML, JUnit XML and fixed tree equal '
+            'the max_workers=1 run; each selected file checked exactly once. Sampling, not proof.',
+            'multiprocessing is abstracted to FIFO start, arbitrary completion order, pickle-by-value transport and '
+            'atomic proxy requests; fork-inherited globals, manager-process death and the log funnel are outside.'),
 }
 
 NA_COMMON = ('pure function of (source text / IR, options, valuations): no scheduler, clock, fault, shared state '
